@@ -2295,7 +2295,12 @@ class Cap(object):
                                     conds.extend(self.conjuncts(x["ch"][0]))
                     for cj in conds[:12]:
                         c0 = X.strip(cj)
-                        if c0.get("k") == "bin" and c0.get("op") in ("<", "<=", ">", ">="):
+                        neg_ = False
+                        while c0 is not None and c0.get("k") == "un" and c0.get("op") == "!":
+                            neg_ = not neg_                      # !(a >= b) is a < b
+                            c0 = X.strip(c0["ch"][0])
+                        if c0 is not None and c0.get("k") == "bin" and c0.get("op") in ("<", "<=", ">", ">="):
+                            op0 = {"<": ">=", "<=": ">", ">": "<=", ">=": "<"}[c0["op"]] if neg_ else c0["op"]
                             hv = h.copy()
                             la = self.ev(c0["ch"][0], hv)
                             if len(la) != 1:
@@ -2307,7 +2312,7 @@ class Cap(object):
                             if a[0] == "p" and b[0] == "p" and a[1] == b[1]:
                                 a, b = I(a[2]), I(b[2])
                             if a[0] == "i" and b[0] == "i":
-                                d = (b[1] - a[1]) if c0["op"] in ("<", "<=") else (a[1] - b[1])
+                                d = (b[1] - a[1]) if op0 in ("<", "<=") else (a[1] - b[1])
                                 cands.append(("guard", d))
                                 cands.append(("guard+1", d + 1))
                 except TooManyStates:
